@@ -133,6 +133,14 @@ impl InputList {
         let mut index = 0;
         loop {
             let ev = reader.read_event_into(&mut buf);
+            if let Ok(ok_ev) = &ev {
+                // all later conversions assume UTF-8 content
+                if std::str::from_utf8(ok_ev).is_err() {
+                    return Err(SvgdxError::ParseError(format!(
+                        "Invalid UTF-8 near line {src_line}"
+                    )));
+                }
+            }
             let event_lines = if let Ok(ok_ev) = ev.clone() {
                 ok_ev.as_ref().iter().filter(|&c| *c == b'\n').count()
             } else {
